@@ -31,6 +31,10 @@ def sites(lines, lo, hi):
         m = re.match(r"^(\s*)if \((.*)\) return (0|NULL);\s*$", l)
         if m:
             out.append((i, "%sif (0 && (%s)) return %s;\n" % (m.group(1), m.group(2), m.group(3))))
+            continue
+        m = re.match(r"^(\s*)ret &= (.*);\s*$", l)       # a validity flag folded into the result: evaluate it, ignore it
+        if m and "declassify" not in l:
+            out.append((i, "%s(void)(%s);\n" % (m.group(1), m.group(2))))
     return out
 
 
